@@ -73,10 +73,10 @@ class Check(PropCheck):
                     nd.length = None       # (distance / matrix on a tree with a missing length is refused by the tool with an error exit: not a report)
             self.jobs.append({'cid': 'n%d' % j, 'kind': kd, 'tree': t, 'mode': 'exact', 'rng': rng.randint(0, 2 ** 30), 'use_o': rng.random() < 0.3})
         # documented refusals: the tool must stop with an error (and print no tree / no table row) instead of printing a wrong answer
-        for j in range(9 if self.tier == 'quick' else 120):
+        for j in range(15 if self.tier == 'quick' else 200):
             n = rng.randint(4, 8)
             t = gen.rand_tree(rng, n, 'exact', p_multi=0.0, internal_names=1.0, names=['t%d' % i for i in range(n)])
-            self.jobs.append({'cid': 'x%d' % j, 'kind': 'refuse', 'sub': ['remove_internal', 'distance_missing', 'rescale_multi_no_o'][j % 3], 'tree': t,
+            self.jobs.append({'cid': 'x%d' % j, 'kind': 'refuse', 'sub': ['remove_internal', 'distance_missing', 'rescale_multi_no_o', 'compare_missing_first', 'compare_missing_second'][j % 5], 'tree': t,
                               'mode': 'exact', 'rng': rng.randint(0, 2 ** 30), 'use_o': False})
         # several input files at once: `stats f1 f2 ..` (one row per file, a filename column) and `rescale f t1 t2 -o dir` (one output file per input)
         for j in range(16 if self.tier == 'quick' else 300):
@@ -99,7 +99,7 @@ class Check(PropCheck):
         text = gen.to_newick(t)
         tf = os.path.join(d, 'tree.nwk')
         # legal file layouts: single line, wrapped inside the tree, leading blank lines, CRLF, no final newline
-        lay = rng.choice(['plain', 'plain', 'wrapped', 'leading', 'crlf', 'nofinal'])
+        lay = rng.choice(['plain', 'plain', 'wrapped', 'leading', 'crlf', 'nofinal', 'uniws'])
         ftext = text + '\n'
         if lay == 'wrapped':
             cut = [i for i, ch in enumerate(text) if ch == ',']
@@ -112,6 +112,9 @@ class Check(PropCheck):
             ftext = text + '\r\n'
         elif lay == 'nofinal':
             ftext = text
+        elif lay == 'uniws':
+            # Unicode White_Space outside labels (NBSP, NEL, VT, LINE SEPARATOR, IDEOGRAPHIC SPACE): skipped like a blank
+            ftext = ''.join(ch + (rng.choice(['\u00a0', '\u0085', '\x0b', '\u2028', '\u3000', ' ']) if ch in ',()' and rng.random() < 0.5 else '') for ch in text) + '\n'
         open(tf, 'w').write(ftext)
         kind = job['kind']
         if kind in ('stats_multi', 'rescale_multi'):
@@ -126,6 +129,17 @@ class Check(PropCheck):
                 open(tf, 'w').write(gen.to_newick(t2) + '\n'); text = gen.to_newick(t2)
                 lv = t2.leaves()
                 args = ['distance', tf, lv[0].name, lv[-1].name]
+            elif sub.startswith('compare_missing'):
+                # a rooted tree whose two root branches carry ONE split: one of them lacks its length -> the weighted comparison is undefined
+                a = gen.rand_tree(rng, 3, 'exact', p_multi=0.0, internal_names=0.0, names=['a0', 'a1', 'a2'])
+                b = gen.rand_tree(rng, 3, 'exact', p_multi=0.0, internal_names=0.0, names=['b0', 'b1', 'b2'])
+                a.length = 1.5; b.length = 0.5
+                (a if sub.endswith('first') else b).length = None
+                t2 = gen.T(children=[a, b])
+                text = gen.to_newick(t2); open(tf, 'w').write(text + '\n')
+                other = t2.copy(); other.children[0].length = 2.0; other.children[1].length = 1.0
+                tf2 = os.path.join(d, 'tree2.nwk'); open(tf2, 'w').write(gen.to_newick(other) + '\n')
+                args = ['compare', tf, tf2] if rng.random() < 0.5 else ['compare', tf2, tf]
             else:
                 tf2 = os.path.join(d, 'tree2.nwk'); open(tf2, 'w').write(text + '\n')
                 args = ['rescale', '2.0', tf, tf2]
@@ -135,7 +149,7 @@ class Check(PropCheck):
             except subprocess.TimeoutExpired:
                 rc, so, se = -9, '', 'timeout'
             why = None
-            data_lines = [x for x in so.strip().split('\n') if x.strip() and not x.startswith('Seq1')]
+            data_lines = [x for x in so.strip().split('\n') if x.strip() and not x.startswith('Seq1') and not x.startswith('tree\tpath')]
             if data_lines:
                 why = '%s: the request must be refused, but something was printed: %r' % (sub, so[:200])
             elif sub != 'rescale_multi_no_o' and rc == 0:
@@ -241,6 +255,9 @@ class Check(PropCheck):
             mops = []
         if use_o:
             args += ['-o', outf]
+            if rng.random() < 0.5 and kind in ('collapse', 'remove', 'rescale', 'resolve'):
+                # the output path already exists and holds something longer: it must be REPLACED
+                open(outf, 'w').write('((old_a:1,old_b:2):3,(old_c:4,old_d:5):6,' + ','.join('old_%d:1' % i for i in range(60)) + ');\n')
         try:
             r = subprocess.run([CLI_BIN] + args, stdout=subprocess.PIPE, stderr=subprocess.PIPE, timeout=60, cwd=d)
             rc, so, se = r.returncode, r.stdout.decode('utf-8', 'replace'), r.stderr.decode('utf-8', 'replace')
@@ -481,6 +498,8 @@ class Check(PropCheck):
             return 'output file was not written'
         if res['use_o'] and info.get('stdout_when_o', '').strip() != '':
             return 'with -o the tree was also printed to stdout'
+        if res['out'].count(';') != 1 or not res['out'].strip().endswith(';') or '\n' in res['out'].strip():
+            return 'the output is not exactly one tree on one line: %r' % (res['out'][:80] + ' ... ' + res['out'][-80:],)
         ops = res['mops2']
         # locate the pieces in the harness (library) observations: ... dump dm | sel 1 parse dump dm is_binary names
         try:
